@@ -10,6 +10,7 @@ import hashlib
 import json
 import os
 import struct
+import tempfile
 import time
 import traceback
 from contextlib import contextmanager
@@ -87,6 +88,10 @@ class Ctx:
         self.t0 = time.time()
         self.only_case = only_case
         self._case_counter = 0
+        self.pid = os.getpid()
+        self.work = os.environ.get("VMON_WORK") or tempfile.mkdtemp(prefix="vmon-w-")
+        os.makedirs(self.work, exist_ok=True)
+        self.sink = os.path.join(self.work, "child_events.jsonl")
 
     # ---- work splitting -------------------------------------------------
     def mine(self, i: int) -> bool:
@@ -129,6 +134,17 @@ class Ctx:
             tier=self.tier,
             seed=self.seed,
         )
+        if os.getpid() != self.pid:
+            # forked pool worker: our memory is lost at exit, so append to the O_APPEND sink (records < 4 KiB)
+            rec["detail"] = rec["detail"][:1200]
+            rec["case"] = None if len(json.dumps(rec["case"])) > 1500 else rec["case"]
+            line = (json.dumps(dict(kind="violation", rec=rec)) + "\n").encode()
+            fd = os.open(self.sink, os.O_WRONLY | os.O_APPEND | os.O_CREAT, 0o644)
+            try:
+                os.write(fd, line)
+            finally:
+                os.close(fd)
+            return
         if owner != self.prop:
             if len(self.ambient) < 20:
                 self.ambient.append(rec)
@@ -158,8 +174,42 @@ class Ctx:
             tb = traceback.format_exc(limit=6)
             self.violation(f"{mechanism}/exception/{type(e).__name__}", tb[-2500:], case, owner)
 
+    def child_event(self, **kw):
+        """append one small record from any process (used by probes that run inside forked pool workers)"""
+        line = (json.dumps(dict(kind="event", pid=os.getpid(), **kw)) + "\n").encode()
+        fd = os.open(self.sink, os.O_WRONLY | os.O_APPEND | os.O_CREAT, 0o644)
+        try:
+            os.write(fd, line)
+        finally:
+            os.close(fd)
+
+    def drain_sink(self) -> list[dict]:
+        """read and clear the sink; violations reported by children are adopted, events are returned"""
+        events = []
+        if not os.path.exists(self.sink):
+            return events
+        with open(self.sink) as f:
+            lines = f.readlines()
+        os.unlink(self.sink)
+        for ln in lines:
+            try:
+                d = json.loads(ln)
+            except ValueError:
+                self.tally("sink:torn-record")
+                continue
+            if d.get("kind") == "violation":
+                r = d["rec"]
+                self.tally("sink:child-violation")
+                self.violation(r["mechanism"] , "[seen in pool worker] " + r["detail"], r["case"], owner=r["property"])
+            else:
+                events.append(d)
+        return events
+
     # ---- output ---------------------------------------------------------
     def dump(self, path: str):
+        if os.getpid() != self.pid:
+            return
+        self.drain_sink()
         with open(path + ".dig", "wb") as f:
             for d in self.digests:
                 f.write(d)
